@@ -66,5 +66,15 @@ def width (b0 : Nat) : Nat :=
   if b0 < 0x80 then 1 else if b0 < 0xc0 then 2 else if b0 < 0xe0 then 3 else if b0 < 0xf0 then 4
   else if b0 < 0xf8 then 5 else if b0 < 0xfc then 6 else if b0 < 0xfe then 7 else if b0 < 0xff then 8 else 9
 
+/-- the leading-ones prefix of a first byte announcing `w` bytes in total (0, 0x80, 0xc0, …, 0xfe, 0xff) -/
+def lead (w : Nat) : Nat := 256 - 2 ^ (9 - w)
+
+/-- value of a complete encoding (exactly `width b0` bytes): the bits of the first byte after its
+prefix, then the following bytes, big-endian -/
+def value : List Nat → Option Nat
+  | [] => none
+  | b0 :: rest =>
+    if rest.length + 1 = width b0 then some ((b0 - lead (width b0)) * 256 ^ rest.length + beVal rest) else none
+
 end Ltf8
 end Hts.Spec
